@@ -62,6 +62,13 @@ func TestVerifC18Migrate(t *testing.T) {
 			}
 			return
 		}
+		if !complete && !json.Valid(data) {
+			tail := string(data)
+			if len(tail) > 60 {
+				tail = "..." + tail[len(tail)-60:]
+			}
+			r.Violate(key+"/accepted", fmt.Sprintf("%s (%d bytes, ending %q) is not a complete JSON document, yet `sfw migrate` reported success", kind, len(data), tail), map[string]interface{}{"kind": kind, "len": len(data)})
+		}
 		// reported success: the database must hold everything the complete file holds
 		s, oerr := pebbledb.NewPebbleScanner(to, pebbledb.DefaultPebbleScannerOptions())
 		if oerr != nil {
